@@ -37,7 +37,11 @@ pub fn nondeterministic_sources() -> String {
     let t = std::time::SystemTime::now();
     let e = std::env::var("X").unwrap_or_default();
     let x = 5u8;
-    format!("{:?}{}{:p}", t, e, &x)
+    static N: std::sync::atomic::AtomicUsize = std::sync::atomic::AtomicUsize::new(0);
+    static M: std::sync::Mutex<u32> = std::sync::Mutex::new(0);
+    let n = N.fetch_add(1, std::sync::atomic::Ordering::Relaxed);
+    let m = *M.lock().unwrap();
+    format!("{:?}{}{:p}{}{}", t, e, &x, n, m)
 }
 
 /// C02.float / C03.literal: a float displayed without a finiteness test.
